@@ -150,6 +150,11 @@ def setup(E, shape):
             rec.recip = lam
         else:
             rec = 1.0 / lam
+        if shape.get("step_failures") and bool(E.fresh_bool(f"ofail{k}_")):
+            # StepController.compute_step's failure result (StepSolverError / EvalError inside the
+            # step computation): the same iterate object, a new step size, not accepted
+            ctx.trials.append(dict(it=iterate, rho=rho, dt=dt, lam=lam, rec=rec, acc=False, nxt=iterate, srho=solver.rho, failed=True))
+            return SCR(iterate, lam, None, None, False)
         acc = E.fresh_bool(f"oacc{k}_")
         accb = bool(acc)
         nxt = Iterate(prob, params, arr(xs), arr(ys), iterate.eval)
@@ -397,7 +402,7 @@ def loop_tasks(combos, K, opts=None):
         if c.get("policy") in HEAVY and c.get("cons") and K > 2:
             Kc = 2  # 15 k paths / 20 min single core at K=3 (measured): these two policies stay at K=2
         sh = dict(K=Kc, policy=c.get("policy", "DualNorm"), vars=c.get("vars", ["boxed"]), cons=c.get("cons", []))
-        for k in ("limit", "time_limit", "collect_path", "fmt", "deriv_check", "start_faults", "policy_cb", "scaling"):
+        for k in ("limit", "time_limit", "collect_path", "fmt", "deriv_check", "start_faults", "policy_cb", "scaling", "step_failures"):
             if k in c:
                 sh[k] = c[k]
         o = dict(mulmode="uf", timeout_ms=20000)
